@@ -1,3 +1,4 @@
+import QF.Props.Tie
 import QF.Core.CsvFull
 import QF.Core.CsvL1
 /-!
@@ -33,5 +34,8 @@ theorem qscan_content (delim : Sim.Byte) (hd : (Sim.QUOTE == delim) = false) (co
     Sim.qscan delim (Sim.escape content ++ tail) acc 0 (Sim.hd (Sim.escape content ++ tail)) =
       Sim.qscan delim tail (acc ++ content) 0 (Sim.hd tail) :=
   Sim.qscan_content delim hd content tail acc hcr ht
+
+/-- T1: the functions this property's mirror model follows have today the source text the model was written against. -/
+theorem tie : Tie.sameAll ["fastcsv.bufferedReader.more", "fastcsv.bufferedReader.reset", "fastcsv.fields.nextUnquotedField", "fastcsv.nextQuotedField", "fastcsv.fields.next", "fastcsv.Reader.Next", "fastcsv.eofReaderWrapper.Read", "io.ReadCSV", "io.columnToData", "io.renameDuplicateColumns", "io.addAliasToMissingColumnNames", "io.isEmptyLine", "qframe.ReadCSV"] = true := by decide
 
 end QF.Props.C12
